@@ -2,6 +2,7 @@ package main
 
 import (
 	"fmt"
+	"os"
 	"regexp"
 	"strings"
 
@@ -78,17 +79,15 @@ var addressParsers = map[string][]int{ // callee -> result indices that are net.
 func ruleSetupFamily(c *Ctx, rule string, fns []*ssa.Function, v4 map[*ssa.Function]bool) {
 	for _, fn := range fns {
 		has := false
-		for _, b := range fn.Blocks {
-			for _, in := range b.Instrs {
-				if call, ok := in.(*ssa.Call); ok {
-					if f := call.Call.StaticCallee(); f != nil {
-						if _, ok := addressParsers[f.String()]; ok {
-							has = true
-						}
+		eachInstr(fn, func(in ssa.Instruction) { // parses made in helpers explored inline count for their caller
+			if call, ok := in.(*ssa.Call); ok {
+				if f := call.Call.StaticCallee(); f != nil {
+					if _, ok := addressParsers[f.String()]; ok {
+						has = true
 					}
 				}
 			}
-		}
+		})
 		if !has || inlinedEverywhere(c, fn) {
 			continue // helpers explored inline are judged in their callers, where the checks may follow the call
 		}
@@ -100,12 +99,20 @@ func ruleSetupFamily(c *Ctx, rule string, fns []*ssa.Function, v4 map[*ssa.Funct
 		}
 		sites := map[ssa.Instruction]*res{}
 		labelSite := map[string]ssa.Instruction{}
+		labelRoot := map[string]ssa.Instruction{}
 		ex.Hooks.Label = func(st *State, in ssa.Instruction) string {
 			if call, ok := in.(*ssa.Call); ok {
 				if f := call.Call.StaticCallee(); f != nil {
 					if _, ok := addressParsers[f.String()]; ok {
 						l := "parse:" + ex.Canon(st, call).S
 						labelSite[l] = in
+						// where this parse happens in terms of the function being explored
+						// (the call that leads into the helper, when the parse is in one)
+						if len(st.frames) > 0 {
+							labelRoot[l] = st.frames[0].call
+						} else {
+							labelRoot[l] = in
+						}
 						if sites[in] == nil {
 							sites[in] = &res{}
 						}
@@ -184,6 +191,9 @@ func ruleSetupFamily(c *Ctx, rule string, fns []*ssa.Function, v4 map[*ssa.Funct
 					r.bad = fmt.Sprintf("the result of net.ParseIP is accepted (%s) without having been proved non-nil: an unparsable token yields a nil address that reaches the handler", where)
 					continue
 				}
+				if os.Getenv("CDLINT_DEBUG_FAMILY") != "" && (!ipFact || (needMask && !maskFact)) {
+					fmt.Fprintf(os.Stderr, "FAMDBG %s cs=%s hist=%v\n", shortFn(fn), cs, st.HistStrings())
+				}
 				if !ipFact {
 					r.bad = fmt.Sprintf("an address parsed by %s is accepted (%s) without its family (To4/To16/len) having been examined: a value of the other family reaches an encoder that slices it", callee, where)
 				} else if needMask && !maskFact {
@@ -196,7 +206,7 @@ func ruleSetupFamily(c *Ctx, rule string, fns []*ssa.Function, v4 map[*ssa.Funct
 			for l := range st.seen {
 				if strings.HasPrefix(l, "parse:") {
 					// only drop parses made inside this loop
-					if in := labelSite[l]; in != nil && ex.Info.LoopOf[header.Index][in.Block().Index] {
+					if in := labelRoot[l]; in != nil && in.Parent() == header.Parent() && InfoOf(header.Parent()).LoopOf[header.Index][in.Block().Index] {
 						delete(st.seen, l)
 					}
 				}
